@@ -241,6 +241,8 @@ def work(item):
     """item = {'graphs': [(g, fam, queries)], 'hash': bool} -> summary dict"""
     res = {"n": 0, "nt": 0, "hist": {}, "bad": [], "known": [], "nt_hashes": [], "samples": []}
     recs, lines = [], []
+    if "exh4" in item:
+        item = dict(item, graphs=exh4_graphs(*item["exh4"]))
     for g, fam, queries in item["graphs"]:
         lab = C.Labels(fam)
         G = build(g, lab)
@@ -314,19 +316,23 @@ def stream_exhaustive(tier):
             gs.append((g, "int", qs))
         items += [{"graphs": ch} for ch in chunked(gs, 16)]
     if tier == "thorough":
-        n = 4
         total = len(KINDS) ** 6
-        gs = []
-        for idx in range(total):
-            g = graph_from_index(n, idx)
-            # every labelled graph is enumerated, so fixing (u,c)=(0,1) and (u,a,c)=(0,1,2) covers every
-            # query up to renaming of the nodes
-            qs = updp_queries(n, [(0, 1)]) + disc_queries(n, [(0, 1, 2)])
-            if idx % 16 == 0:
-                qs += updp_queries(n, [(3, 2), (2, 0)]) + disc_queries(n, [(3, 1, 0), (2, 3, 1), (1, 1, 0), (0, 1, 0)])
-            gs.append((g, "int", qs))
-        items += [{"graphs": ch} for ch in chunked(gs, 128)]
+        items += [{"exh4": (lo, min(lo + 256, total))} for lo in range(0, total, 256)]   # expanded in the worker
     return items
+
+
+def exh4_graphs(lo, hi):
+    n = 4
+    gs = []
+    for idx in range(lo, hi):
+        g = graph_from_index(n, idx)
+        # every labelled graph is enumerated, so fixing (u,c)=(0,1) and (u,a,c)=(0,1,2) covers every
+        # query up to renaming of the nodes
+        qs = updp_queries(n, [(0, 1)]) + disc_queries(n, [(0, 1, 2)])
+        if idx % 16 == 0:
+            qs += updp_queries(n, [(3, 2), (2, 0)]) + disc_queries(n, [(3, 1, 0), (2, 3, 1), (1, 1, 0), (0, 1, 0)])
+        gs.append((g, "int", qs))
+    return gs
 
 
 def stream_random(tier, rng):
